@@ -47,6 +47,7 @@ type c15Spec struct {
 	Edges    []c15EMap           `json:"edges"`
 }
 type c15Req struct {
+	DeadlineS int `json:"deadline_s,omitempty"`
 	Spec  c15Spec   `json:"spec"`
 	Progs [][]tStmt `json:"progs"`
 }
@@ -130,9 +131,13 @@ func gripperWorker(raw json.RawMessage) interface{} {
 	}
 	defer env.close()
 	resp := c15Resp{Gripper: make([]tOutcome, len(req.Progs)), Store: make([]tOutcome, len(req.Progs)), Writes: []string{}}
+	dl := 20 * time.Second
+	if req.DeadlineS > 0 {
+		dl = time.Duration(req.DeadlineS) * time.Second
+	}
 	for i, p := range req.Progs {
-		resp.Gripper[i] = runProduction(tg, p, 20*time.Second)
-		resp.Store[i] = runProduction(env.gi, p, 20*time.Second)
+		resp.Gripper[i] = runProduction(tg, p, dl)
+		resp.Store[i] = runProduction(env.gi, p, dl)
 	}
 	if tg.AddVertex([]*gdbi.Vertex{{ID: "x", Label: "L"}}) == nil {
 		resp.Writes = append(resp.Writes, "AddVertex")
@@ -244,7 +249,22 @@ func c15Programs(rng *rand.Rand, s c15Spec, n int) [][]tStmt {
 	for i := 0; i < n; i++ {
 		out = append(out, randProgram(rng, 5, progOpts{markType: genType}))
 	}
+	// null-producing moves: besides the model, compared with the embedded store as exact multisets
+	for _, op := range []string{"outNull", "inNull", "outENull", "inENull"} {
+		out = append(out, []tStmt{{Op: "V"}, {Op: op}}, []tStmt{{Op: "V"}, {Op: op, Strs: []string{"knows"}}}, []tStmt{{Op: "V"}, {Op: op}, {Op: "count"}},
+			[]tStmt{{Op: "V", Strs: vids}, {Op: op, Strs: []string{"likes"}}}, []tStmt{{Op: "V"}, {Op: "hasLabel", Strs: []string{"P"}}, {Op: op}, {Op: "count"}})
+	}
 	return out
+}
+
+func c15Extra(p []tStmt) bool {
+	for _, s := range p {
+		switch s.Op {
+		case "outNull", "inNull", "outENull", "inENull":
+			return true
+		}
+	}
+	return false
 }
 
 type c15Input struct {
@@ -282,7 +302,7 @@ func runC15(ctx *Ctx) error {
 	ctx.EvalMod = "Eval_C15"
 	ctx.CaseTy = "c15_case"
 	ctx.Shard = 250
-	ctx.Rule = "random table sets served by gripper.SimpleTableServicer over an in-memory gRPC connection (bufconn): 1..3 vertex tables of 0..5 rows (two tables may share a label), 0..2 link tables of 1..6 rows with empty, missing and dangling endpoint fields, repeated links, link tables read in either direction, mapped through gripper.NewTabularGraph; per table set: V, E, hasLabel starts (the driver plans these itself), V(id)/E(id) for every id and some absent ones, neighbourhood steps, and random C01-space programs; each program runs through the production compiler on the gripper graph and on the same graph materialised in badger; write calls are tried on the gripper graph; observed: rows of both, which writes were not refused; non-trivial = a program with at least two statements on a table set with at least one edge; distinct by (tables, mapping, program)"
+	ctx.Rule = "random table sets served by gripper.SimpleTableServicer over an in-memory gRPC connection (bufconn): 1..3 vertex tables of 0..5 rows (two tables may share a label), 0..2 link tables of 1..6 rows with empty, missing and dangling endpoint fields, repeated links, link tables read in either direction, mapped through gripper.NewTabularGraph; per table set: V, E, hasLabel starts (the driver plans these itself), V(id)/E(id) for every id and some absent ones, neighbourhood steps, random C01-space programs, and null-producing moves (outNull/inNull/outENull/inENull, with and without labels, after V(), V(ids) and a label start; compared with the embedded store as exact multisets); each program runs through the production compiler on the gripper graph and on the same graph materialised in badger; write calls are tried on the gripper graph; observed: rows of both, which writes were not refused; non-trivial = a program with at least two statements on a table set with at least one edge; distinct by (tables, mapping, program)"
 	type job struct {
 		spec  c15Spec
 		progs [][]tStmt
@@ -307,6 +327,7 @@ func runC15(ctx *Ctx) error {
 	}
 	res := runIsolated("gripper", reqs, 8, 240*time.Second)
 	rerunFailed("gripper", reqs, res, 240*time.Second)
+	reruns := 0
 	for i, j := range jobs {
 		var resp c15Resp
 		r := res[i]
@@ -326,10 +347,22 @@ func runC15(ctx *Ctx) error {
 			} else {
 				og, os = resp.Gripper[k], resp.Store[k]
 			}
+			if ctx.Replay == nil && resp.Err == "" && k < len(resp.Gripper) && (!og.Closed || !os.Closed) && !og.Rejected && reruns < 40 {
+				// a stream not closed within the deadline while the whole batch was running: the program is run again alone
+				// with a long deadline; only a stream that stays open then is reported
+				reruns++
+				one, _ := json.Marshal(c15Req{Spec: j.spec, Progs: [][]tStmt{p}, DeadlineS: 120})
+				rr := runIsolated("gripper", []json.RawMessage{one}, 1, 300*time.Second)
+				var r1 c15Resp
+				if !rr[0].Crashed && !rr[0].Timeout && json.Unmarshal(rr[0].Out, &r1) == nil && r1.Err == "" && len(r1.Gripper) == 1 {
+					og, os = r1.Gripper[0], r1.Store[0]
+				}
+			}
 			in := c15Input{Spec: j.spec, Prog: p}
 			key, _ := json.Marshal(in)
-			cc := coq.Record("c_mapping", j.spec.coq(), "c_prog", progCoq(p), "o_gripper", outcomeCoq(og), "o_store", outcomeCoq(os),
-				"o_writes", coq.StrList(resp.Writes), "o_failed", coq.Bool(resp.Err != ""))
+			pc := progCoq(p)
+			cc := coq.Record("c_mapping", j.spec.coq(), "c_prog", pc, "o_gripper", outcomeCoq(og), "o_store", outcomeCoq(os),
+				"o_writes", coq.StrList(resp.Writes), "o_failed", coq.Bool(resp.Err != ""), "c_extra", coq.Bool(c15Extra(p)))
 			ctx.Add(Case{Input: in, Observed: map[string]interface{}{"gripper": og, "store": os, "writes_not_refused": resp.Writes, "err": resp.Err},
 				Coq: cc, Nontrivial: len(p) >= 2 && len(g.E) > 0, Key: string(key), Tags: []string{fmt.Sprintf("len=%d", len(p))}})
 		}
